@@ -1,5 +1,190 @@
 package main
 
-func (h *H) hostile() {}
+// Exploration (NOT a proof, labelled as such in the evidence): hostile payloads into the two message entry points
+// built on package rlp — ucon MessageHandler.HandleMsg (consensus gossip) and staking TxConverter.ApplyMessage
+// (staking transactions) — under recover. Payloads: model-encoded values of the matching schema, their mutations,
+// random bytes; for HandleMsg the attacker signs what it sends, so the signature is valid most of the time and the
+// payload decoders are reached.
 
-func hostileOne(kind string, payload []byte) string { return "" }
+import (
+	"crypto/ecdsa"
+	"fmt"
+	"math/big"
+	"strings"
+	"time"
+
+	"github.com/youchainhq/go-youchain/common"
+	"github.com/youchainhq/go-youchain/consensus/ucon"
+	"github.com/youchainhq/go-youchain/core"
+	"github.com/youchainhq/go-youchain/core/state"
+	"github.com/youchainhq/go-youchain/core/types"
+	"github.com/youchainhq/go-youchain/core/vm"
+	"github.com/youchainhq/go-youchain/crypto"
+	"github.com/youchainhq/go-youchain/event"
+	"github.com/youchainhq/go-youchain/local"
+	"github.com/youchainhq/go-youchain/params"
+	"github.com/youchainhq/go-youchain/rlp"
+	"github.com/youchainhq/go-youchain/staking"
+	"github.com/youchainhq/go-youchain/youdb"
+
+	"verifharness/internal/vh"
+)
+
+var (
+	hostKey  *ecdsa.PrivateKey
+	hostAddr common.Address
+	hostMH   *ucon.MessageHandler
+	hostLast string // outcome class of the last hostileOne call (for the distribution)
+)
+
+func errClass(err error) string {
+	if err == nil {
+		return "nil"
+	}
+	s := err.Error()
+	for _, k := range []string{"decode from msg.data", "recovery failed", "invalid signature", "MsgSizeNotMatch", "Empty Round", "UnkownMsgCode", "get validator", "rlp:"} {
+		if strings.Contains(s, k) {
+			return strings.ReplaceAll(k, " ", "-")
+		}
+	}
+	return "other-error"
+}
+
+func hostInit() {
+	if hostMH != nil {
+		return
+	}
+	params.InitNetworkId(params.NetworkIdForTestCase)
+	hostKey, _ = crypto.ToECDSA(common.Hex2Bytes("4c0883a69102937d6231471b5dbb6204fe5129617082792ae468d01a3f362318"))
+	hostAddr = crypto.PubkeyToAddress(hostKey.PublicKey)
+	getVal := func(round *big.Int, addr common.Address, lb params.LookBackType) (*state.Validator, bool) {
+		return &state.Validator{OperatorAddress: addr, Coinbase: addr, Role: params.RoleChancellor, Status: params.ValidatorOnline,
+			Token: big.NewInt(1), Stake: big.NewInt(1)}, false
+	}
+	hostMH = ucon.NewMessageHandler(hostKey, new(event.TypeMux), getVal,
+		func(ev ucon.ReceivedMsgEvent) (error, bool) { return nil, true },
+		func(msg *ucon.CachedPriorityMessage, st ucon.MsgReceivedStatus) (error, bool) { return nil, false },
+		func(msg *ucon.CachedBlockMessage, st ucon.MsgReceivedStatus) (error, bool) { return nil, false },
+		func(ev ucon.VoteMsgEvent, st ucon.MsgReceivedStatus) (error, bool) { return nil, false })
+}
+
+// hostileOne runs one entry point on one input under recover; returns "" or the description of the crash.
+func hostileOne(kind string, data []byte) (what string) {
+	hostInit()
+	defer func() {
+		if r := recover(); r != nil {
+			what = fmt.Sprintf("%s panics on hostile input: %v", kind, r)
+		}
+	}()
+	switch kind {
+	case "ucon":
+		hostLast = errClass(hostMH.HandleMsg(data, time.Unix(1700000000, 0)))
+	case "staking":
+		db := state.NewDatabase(youdb.NewMemDatabase())
+		st, err := state.New(common.Hash{}, common.Hash{}, common.Hash{}, db)
+		if err != nil {
+			return "harness: cannot create state: " + err.Error()
+		}
+		st.AddBalance(hostAddr, new(big.Int).Lsh(big.NewInt(1), 100))
+		yp := params.Versions[params.YouV5]
+		cfg := &vm.Config{}
+		cfg.CurrYouParams = &yp
+		to := params.StakingModuleAddress
+		msg := types.NewMessage(hostAddr, &to, 0, new(big.Int), 10000000, big.NewInt(1), data, false)
+		hdr := &types.Header{Number: big.NewInt(1000), Time: 1700000000, GasLimit: 100000000, CurrVersion: params.YouV5,
+			GasRewards: new(big.Int), Subsidy: new(big.Int)}
+		ctx := core.NewMsgContext(msg, st, nil, hdr, hostAddr, new(core.GasPool).AddGas(100000000), cfg, local.FakeRecorder())
+		ctx.InitialGas, ctx.AvailableGas = 10000000, 10000000
+		_, _, failed, err := (&staking.TxConverter{}).ApplyMessage(ctx)
+		hostLast = fmt.Sprintf("failed=%v-%s", failed, errClass(err))
+	}
+	return ""
+}
+
+func (h *H) modelBytes(name string, r *vh.RNG) []byte {
+	e := h.byName[name]
+	if e == nil {
+		return nil
+	}
+	v := genVal(r, e.sch, 3)
+	ans := strings.Fields(h.ask("E " + name + " " + v.String()))
+	if len(ans) != 2 || ans[0] != "ok" {
+		return nil
+	}
+	return unhx(ans[1])
+}
+
+func (h *H) hostile() {
+	hostInit()
+	r := h.c.R
+	n := h.c.N(1500, 40000)
+	if h.c.Search {
+		n *= 3
+	}
+	perturb := func(bs []byte) ([]byte, string) {
+		switch r.Intn(4) {
+		case 0:
+			return bs, "valid"
+		case 3:
+			return r.Bytes(r.Intn(40)), "random"
+		}
+		if t, err := parseTree(bs); err == nil {
+			k, m := mutate(r, t)
+			return m, k
+		}
+		return bs, "valid"
+	}
+	uconSchemas := map[uint8]string{1: "ucon.ConsensusCommon", 2: "types.Block", 3: "ucon.BlockHashWithVotes", 4: "ucon.BlockHashWithVotes",
+		5: "ucon.BlockHashWithVotes", 6: "ucon.BlockHashWithVotes"}
+	for i := 0; i < n && h.err == nil; i++ {
+		code := uint8(r.Intn(8))
+		if r.Chance(3) {
+			code = uint8(r.Intn(256))
+		}
+		sch := uconSchemas[code]
+		if sch == "" {
+			sch = "ucon.SingleVote"
+		}
+		payload, label := perturb(h.modelBytes(sch, r))
+		var sig []byte
+		if r.Chance(85) {
+			sig, _ = ucon.Sign(hostKey, append(append([]byte{}, payload...), code))
+		} else {
+			sig = r.Bytes([]int{0, 64, 65, 66}[r.Intn(4)])
+		}
+		data, _ := rlp.EncodeToBytes(&ucon.Message{Code: ucon.MsgType(code), Payload: payload, Signature: sig})
+		if r.Chance(10) {
+			data, _ = perturb(data)
+			label += "+outer"
+		}
+		h.res.Count("M|ucon|"+string(data), label != "random")
+		if w := hostileOne("ucon", data); w != "" {
+			h.fail("oracle", "", "ucon-handler", w+" ("+label+")", []string{"M ucon " + hx(data)})
+		} else {
+			h.res.Dist("hostile-ucon:" + hostLast)
+		}
+	}
+	stakingSchemas := map[uint8]string{1: "staking.TxCreateValidator", 2: "staking.TxUpdateValidator", 3: "staking.TxValidatorDeposit",
+		4: "staking.TxValidatorWithdraw", 5: "staking.TxValidatorChangeStatus", 6: "staking.TxValidatorSettle",
+		0x10: "staking.TxDelegation", 0x11: "staking.TxDelegation", 0x12: "staking.TxDelegationSettle"}
+	actions := []uint8{1, 2, 3, 4, 5, 6, 0x10, 0x11, 0x12, 0, 7, 0x13, 0xff}
+	for i := 0; i < n/3 && h.err == nil; i++ {
+		act := actions[r.Intn(len(actions))]
+		sch := stakingSchemas[act]
+		if sch == "" {
+			sch = "staking.TxValidatorSettle"
+		}
+		payload, label := perturb(h.modelBytes(sch, r))
+		data, _ := rlp.EncodeToBytes(&staking.Message{Action: staking.ActionType(act), Payload: payload})
+		if r.Chance(15) {
+			data, _ = perturb(data)
+			label += "+outer"
+		}
+		h.res.Count("M|staking|"+string(data), label != "random")
+		if w := hostileOne("staking", data); w != "" {
+			h.fail("oracle", "", "staking-converter", w+" ("+label+")", []string{"M staking " + hx(data)})
+		} else {
+			h.res.Dist("hostile-staking:" + hostLast)
+		}
+	}
+}
